@@ -488,6 +488,9 @@ def stream_invariant(ctx, rule):
         for key, s in sites.items():
             if s.failed and s.kind in ("index", "slice") and bad is None:
                 bad = "after %s the next poll can reach an unprovable index operation (%s): %s" % (kind, key.split("|")[-2] if "|" in key else key, s.failed[0][0])
+            if s.failed and s.kind == "panic-call" and "assert_failed" in s.op and bad is None:
+                bad = ("after %s the next poll reaches a debug assertion that is not implied by the terminal state (it panics in debug builds: "
+                       "the owed-bytes counter is not known to be 0 there)" % kind)
             if s.failed and s.kind == "assert" and s.op.startswith("Overflow(Sub)") and bad is None and "ops=0," in s.failed[0][1]:
                 bad = ("after %s the next poll subtracts a piece length from the exhausted owed-bytes counter: it panics in debug builds and "
                        "emits the piece (data after the terminal event) in release builds" % kind)
